@@ -268,6 +268,12 @@ fn c15(_tier: Tier, seed: u64, case: u64) -> CaseReport {
         let mut events = 0u64;
         let mut nontrivial = vec![];
         for k in &shard {
+            // the directory of a note, as every reader and writer of relative links uses it
+            let kk: Key = k.as_str().into();
+            if kk.parent() != mdscan::key_dir(k) && out.len() < 5 {
+                out.push(("parent-directory".into(), format!("key `{}`: parent() = `{}`, directory is `{}`", k, kk.parent(), mdscan::key_dir(k))));
+            }
+            events += 1;
             for d in &dirs {
                 events += 1;
                 let key: Key = k.as_str().into();
